@@ -683,7 +683,8 @@ fn glm_stream(rng: &mut Sm64, out: &mut Out, id: &mut u64, count: usize, thoroug
         let cfg = GlmCfg { power: p, link: link_opt, alpha, icpt, tol, maxit: 1000 };
         let link = eff_link(&cfg);
         let d = 1 + r.below(3) as usize;
-        let n = d + 3 + r.below(if thorough { 40 } else { 28 }) as usize;
+        // without a penalty the optimum must exist and be well determined: keep n comfortably above the number of unknowns
+        let n = (if alpha == 0.0 { 5 * (d + 1) } else { d + 3 }) + r.below(if thorough { 40 } else { 28 }) as usize;
         let (x, y) = gen_glm_data(&mut r, p, link, d, n);
         let stream = "glm";
         let extra = format!("\"power\": {}, \"link\": {}, \"link_explicit\": {}, \"y_first\": {:?},", p, jstr(link_name(link)), link_opt.is_some(), &y[..2.min(y.len())]);
@@ -798,7 +799,7 @@ fn malformed_stream(rng: &mut Sm64, out: &mut Out, id: &mut u64, count: usize) {
                     4 => (*r.pick(&[1.0, 1.5, 1.2, 1.999]), -(0.1 + r.unit()), 1),
                     5 => (*r.pick(&[2.0, 3.0, 2.5]), if r.chance(0.5) { 0.0 } else { -r.unit() }, 1),
                     6 => (*r.pick(&[0.5, 0.01, 0.999]), 1.0, 2),
-                    _ => (*r.pick(&[1.0, 1.5, 0.0, -1.0]), if r.chance(0.5) { 0.0 } else { 0.5 }, 0), // border values that must be accepted
+                    _ => (*r.pick(&[1.0, 1.5, 1.2, 0.0]), if r.chance(0.5) { 0.0 } else { 0.5 }, 0), // border values that must be accepted
                 };
                 let mut y: Vec<f64> = (0..n).map(|_| 0.5 + r.unit()).collect();
                 let pos = if r.chance(0.3) { n - 1 } else { r.below(n as u64) as usize };
